@@ -4,3 +4,7 @@ C05_ring_FLAGS   := -fno-access-control
 C05_ring_LDFLAGS := -rdynamic
 C05_ring_LIBS    := $(LIBCSG) $(LIBTOOLS)
 C05_ring_DEPS    := $(CSGSO) $(TOOLSSO)
+
+HARNESSES += C05_tools
+C05_tools_FLAGS :=
+C05_tools_LIBS  :=
